@@ -21,6 +21,9 @@ func hasProp(props []string, p string) bool {
 }
 
 func contractServes(c *Contract, prop string) bool {
+	if c.Inline {
+		return false // loop annotations for a body that is verified inside its callers only
+	}
 	if hasProp(c.Props, prop) {
 		return true
 	}
